@@ -7,7 +7,7 @@ import shutil
 from fv import common, tlc
 
 CONCRETE = {
-    "a": "xyzAbcq", "d": "0123456789", ".": ".", "_": "_", "q": "'", "Q": '"', "b": "`",
+    "a": "xyzAbcq\u00e9\u03b2", "d": "0123456789", ".": ".", "_": "_", "q": "'", "Q": '"', "b": "`",
     "s": " \t\n\r", "*": "*", "/": "/", "=": "=", "!": "!", "<": "<>", "~": "~",
     "p": "()[]{},+-%:|", "@": "@#$&^?;\\",
 }
